@@ -9,6 +9,7 @@ unreachable for EVERY token sequence and every byte string.  The tie to the sour
 operations regenerated from the source on every run, compared below with the inventory this file accounts for.
 -/
 import SpdxVerif.Lemmas.GoShaped
+import SpdxVerif.Lemmas.GoScan
 import SpdxVerif.Spec.Census
 namespace Spdx.C03
 
@@ -20,6 +21,17 @@ theorem g_parseTokens_never_panics (toks : List Tok) : G.parseTokens toks ≠ .p
 /-- … and so does the whole Go-shaped `parse`, on every byte string -/
 theorem g_parse_never_panics (s : Bytes) : G.parse s ≠ .panic := by
   obtain ⟨r, h⟩ := G.parse_ok s
+  rw [h]; intro hc; cases hc
+
+/-- the Go-shaped SCANNER (private buffer, integer cursor, `expression[index-2:index-1]` look-behind, the six slice
+    expressions of `normalizeLicense` including the buffer rewrite) returns normally on every byte string -/
+theorem g_scan_never_panics (s : Bytes) : G.scanG s ≠ .panic := by
+  obtain ⟨r, h⟩ := G.scanG_ok s
+  rw [h]; intro hc; cases hc
+
+/-- … and so does the whole Go-shaped `parse`: scanner + token cursor + parser -/
+theorem g_parse_full_never_panics (s : Bytes) : G.parseG s ≠ .panic := by
+  obtain ⟨r, h⟩ := G.parseG_ok s
   rw [h]; intro hc; cases hc
 
 /-- each cursor-reading helper on its own, for every cursor position (including past the end) -/
@@ -51,6 +63,14 @@ example : (match G.parse [40] with | .ok none => true | _ => false) = true := by
 example : (match G.parse [77,73,84,32,87,73,84,72] with | .ok none => true | _ => false) = true := by decide +kernel
 example : (match G.parse [68,111,99,117,109,101,110,116,82,101,102,45,97] with | .ok none => true | _ => false) = true := by decide +kernel
 example : (match G.parse [68,111,99,117,109,101,110,116,82,101,102,45,97,58] with | .ok none => true | _ => false) = true := by decide +kernel
+
+-- the look-behind without its `index > 1` guard: `"+"` at offset 0 would read `expression[-1:0]`
+example : (match G.sl [43] ((1 : Int) - 2) ((1 : Int) - 1) with | .panic => true | .ok _ => false) = true := by decide
+-- the rewrite's `expression[0:index-9]` is safe only because the word just read ends at the cursor
+example : (match G.sl [45,111,114] 0 ((3 : Int) - 9) with | .panic => true | .ok _ => false) = true := by decide
+-- the Go-shaped pipeline on texts that exercise the rewrite and the look-behind
+example : (match G.parseG (str "Apache-2.0-or-later+ AND (MIT +)") with | .ok none => true | _ => false) = true := by decide +kernel
+example : (match G.parseG (str "(Apache-2.0-or-later) AND MIT") with | .ok (some _) => true | _ => false) = true := by decide +kernel
 
 /-! ### inventory of partial operations in the source (regenerated census) -/
 
